@@ -11,6 +11,7 @@ package util
 
 import (
 	"bytes"
+	"io"
 	"net"
 	"time"
 
@@ -130,7 +131,13 @@ func VerifC10_Deframe() {
 			chunks = append(chunks, c)
 		}
 	}
-	conn := &scriptConn{stream: stream, chunks: chunks, finalErr: &scriptErr{"connection reset by peer"}}
+	// the failure: a reset, or the peer closing (io.EOF) — at whatever point the stream ends,
+	// frame boundary included
+	var final error = &scriptErr{"connection reset by peer"}
+	if vr.Bool("eof") {
+		final = io.EOF
+	}
+	conn := &scriptConn{stream: stream, chunks: chunks, finalErr: final}
 	m := newTestStream(conn, len(frames)+1, nil)
 	m.inbound()
 	c10checkDelivered(m, frames)
@@ -165,6 +172,24 @@ func VerifC10_DeframeLargeFrame() {
 	m := newTestStream(conn, len(frames)+1, nil)
 	m.inbound()
 	c10checkDelivered(m, frames)
+	vr.Assert(len(m.Error) == 1, "failure-published-once")
+}
+
+// frames of 256 bytes and more (the high byte of the length field matters), with the 4-byte
+// length prefix split across two reads at every position
+func VerifC10_DeframeLongFrameSplitHeader() {
+	l := vr.IntRange("framelen", 256, 258)
+	f := vr.Bytes("frame", l)
+	f[2], f[3] = byte(l>>8), byte(l) // concrete here: the point is the prefix carried across reads
+	g := vr.Bytes("next", 8)
+	g[2], g[3] = 0, 8
+	stream := make([]byte, 0, l+8)
+	stream = append(append(stream, f...), g...)
+	cut := vr.IntRange("cut", 1, 4)
+	conn := &scriptConn{stream: stream, chunks: []int{cut, len(stream) - cut}, finalErr: io.EOF}
+	m := newTestStream(conn, 3, nil)
+	m.inbound()
+	c10checkDelivered(m, [][]byte{f, g})
 	vr.Assert(len(m.Error) == 1, "failure-published-once")
 }
 
@@ -242,7 +267,15 @@ func VerifC11_Outbound() {
 	m := newTestStream(conn, 0, nil)
 	var want [][]byte
 	for i := 0; i < n; i++ {
-		b := vr.Bytes("msg", vr.IntRange("msglen", 8, 12))
+		var b []byte
+		if i == 1 && vr.Bool("largest") {
+			// the largest frame a 16-bit length field can describe (content concrete: only its size matters)
+			vr.ConcreteInputs(true)
+			b = vr.Bytes("msg", 65535)
+			vr.ConcreteInputs(false)
+		} else {
+			b = vr.Bytes("msg", vr.IntRange("msglen", 8, 12))
+		}
 		want = append(want, b)
 		m.Outbound <- &recMsg{b}
 	}
